@@ -283,20 +283,24 @@ Proof.
     + inversion H; subst. reflexivity.
 Qed.
 
+Lemma shed_after_count j t x : wc j (shed_after t x) = wc j x.
+Proof.
+  destruct x as [[p acts] out]. unfold shed_after.
+  destruct (w_dset p) as [[limit [|]]|]; try reflexivity.
+  destruct (shed_oldest _ t limit (w_queue p) out) as [q' out'] eqn:E.
+  apply (shed_oldest_count j) in E. simpl. li.
+Qed.
+
 Lemma enqueue_job_count j t x y : wc j (enqueue_job t x y) = (wc j x + one j y)%nat.
 Proof.
   destruct x as [[p acts] out]. unfold enqueue_job.
   match goal with |- context [if ?b then _ else _] => destruct b end.
   - simpl. cnt.
-  - destruct (w_curr p) as [|k ks].
+  - rewrite shed_after_count. destruct (w_curr p) as [|k ks].
     + destruct (next_non_expired t (w_queue p) (accept_ev y out)) as [[[o|] q'] out'] eqn:E;
         pose proof (next_non_expired_count j _ _ _ _ _ _ E) as H;
         rewrite dispatch_job_count; simpl; autorewrite with cnt in *; li.
-    + destruct (w_dset p) as [[limit [|]]|].
-      * simpl. cnt.
-      * destruct (shed_oldest _ t limit (w_queue p ++ [clear_port y]) (accept_ev y out)) as [q' out'] eqn:E.
-        apply (shed_oldest_count j) in E. simpl. autorewrite with cnt in *. li.
-      * simpl. cnt.
+    + simpl. cnt.
 Qed.
 
 Lemma worker_complete_count j t x k : wc j (worker_complete t x k) = wc j x.
@@ -807,6 +811,20 @@ Proof.
   destruct (a_run a); [reflexivity|apply actor_exit_count; reflexivity].
 Qed.
 
+Lemma w_close_count j aid w : pc j (w_close aid w) = pc j w.
+Proof.
+  unfold w_close. destruct (lookup aid (actors w)) as [a|]; [|reflexivity].
+  destruct (a_alive a); [|reflexivity]. destruct (a_stop a); [|reflexivity].
+  destruct (a_run a); [reflexivity|].
+  transitivity (pc j (actor_exit aid (CStopExit aid) w)); [reflexivity|apply actor_exit_count; reflexivity].
+Qed.
+
+Lemma w_closed_count j aid w : pc j (w_closed aid w) = pc j w.
+Proof.
+  unfold w_closed. destruct (lookup aid (actors w)) as [a|]; [|reflexivity].
+  destruct (memN aid (closing w) && negb (a_alive a)); reflexivity.
+Qed.
+
 (* sending: the only step that adds an id *)
 Definition label_ids (l : label) : list N :=
   match l with LSend (SDispatch id _ _ _) => [id] | _ => [] end.
@@ -846,6 +864,9 @@ Proof.
   - apply w_complete_count.
   - apply w_die_count.
   - apply w_exit_count.
+  - transitivity (pc j (stop_actor a w)); [reflexivity|apply stop_actor_count].
+  - apply w_close_count.
+  - apply w_closed_count.
   - apply finalize_count.
 Qed.
 
